@@ -481,8 +481,8 @@ StatusGraphs(K) ==
   UNION { UNION { {WithOut(gr, oa, pa) : oa \in RandomSubset(2, [1..Len(gr.stmts) -> OutKinds]), pa \in RandomSubset(2, [1..Len(gr.stmts) -> {"", "", "console"}])} :
                   gr \in GraphsS(sh, {"plain", "restat"}, K) } : sh \in {"wide4", "widejoin", "widephony", "fanin", "fanout", "chain3", "indep"} }
 FamStatus(K, CH) ==
-  UNION { {Scn(gr, <<BX(Roots(gr), jk[1], jk[2], [fail |-> f, printer |-> m])>>) :
-              jk \in {1, 3, 4} \X {1, 0}, m \in {"pipe", "tty"}, f \in {<<>>} \cup Pick(CH, {FailRec(S, 1, FALSE) : S \in FailSets(gr)})}
+  UNION { {Scn(gr, <<BX(Roots(gr), jk[1], jk[2], [fail |-> f, printer |-> m, nstatus |-> ns])>>) :
+              jk \in {1, 3, 4} \X {1, 0}, m \in {"pipe", "tty"}, ns \in {"", "<%s|%t|%r|%u|%f|%p> "}, f \in {<<>>} \cup Pick(CH, {FailRec(S, 1, FALSE) : S \in FailSets(gr)})}
           \cup {Scn(gr, <<Build(Roots(gr), 2, 1), c, BX(Roots(gr), 3, 1, [printer |-> m])>>) : m \in {"pipe", "tty"}, c \in Pick(CH, {x \in Changes(gr) : x.op = "touch"})} :
           gr \in StatusGraphs(K) }
 
@@ -510,6 +510,11 @@ FamMC(K, CH) ==
   UNION {GraphsS(sh, {"plain", "restat", "gcc", "two", "gen", "depfile"}, K) : sh \in {"chain2", "fanin", "fanout", "implicit", "oonly", "alias", "valid", "mixed", "chain3"}}
   \cup UNION {{WithPools(gr, pa) : pa \in RandomSubset(1, [1..Len(gr.stmts) -> PoolNames])} : gr \in GraphsS("wide4", {"plain", "restat"}, 2)}
 
+\* graphs with pools (incl. console) for the design-level checking of the C06 invariants and termination
+FamMCPools(K, CH) ==
+  UNION { UNION {{WithPools(gr, pa) : pa \in RandomSubset(K, [1..Len(gr.stmts) -> PoolNames])} : gr \in GraphsS(sh, {"plain", "restat"}, 1)} :
+          sh \in {"wide4", "widejoin", "widephony", "fanout", "diamond", "group"} }
+
 ParK == IF "K" \in DOMAIN IOEnv THEN atoi(IOEnv.K) ELSE 3
 ParCH == IF "CH" \in DOMAIN IOEnv THEN atoi(IOEnv.CH) ELSE 3
 
@@ -521,6 +526,7 @@ Family(name) ==
     [] name = "fail" -> FamFail(ParK, ParCH)
     [] name = "rand" -> FamRand(ParK, ParCH)
     [] name = "mc" -> FamMC(ParK, ParCH)
+    [] name = "mcpools" -> FamMCPools(ParK, ParCH)
     [] name = "clean" -> FamClean(ParK, ParCH)
     [] name = "restat" -> FamRestat(ParK, ParCH)
     [] name = "dry" -> FamDry(ParK, ParCH)
